@@ -136,6 +136,17 @@ impl Method for FixedMethod {
         self.suggestions.clear();
         true
     }
+
+    #[cfg(feature = "verif")]
+    fn verif_fixed_state(&self) -> Option<(String, String, u8)> {
+        let pending = match self.pending_kar {
+            None => 0,
+            Some(PendingKar::I) => 1,
+            Some(PendingKar::E) => 2,
+            Some(PendingKar::OI) => 3,
+        };
+        Some((self.buffer.clone(), self.typed.clone(), pending))
+    }
 }
 
 impl FixedMethod {
